@@ -1000,6 +1000,89 @@ class H4ctlt(Case):
         return obs
 
 
+class H3guess(Case):
+    """analysing a System for the parameter guess does not change it: the real tempo._estimate_dt_from_system
+    -> _max_system_frequency (real mode: also the full guess_tempo_parameters(bath, ..., system=system)) run on
+    a time-independent System with symbolic rates (gamma != 1 allowed) and symbolic Lindblad operators, twice;
+    afterwards lindblad_operators / gammas / hamiltonian are the values handed to the constructor and the
+    (lazily evaluated) liouvillian equals that of a fresh equal System."""
+    functions = ("tempo._estimate_dt_from_system", "tempo._max_system_frequency", "system.System.lindblad_operators", "system.System.gammas")
+    stubs = ("tempo._spectral_norm (LAPACK eigvalsh) -> constant placeholder: the value of the norm is irrelevant to the claim",)
+    id = "H3/guess_parameters_system_untouched"
+    bounds = {"d": 2, "dissipators": 2}
+
+    def __init__(self):
+        e = _sys_env()
+        e["extra"]["oqupy.tempo._spectral_norm"] = lambda op: 1.0
+        self.env = e
+
+    def run(self, inp):
+        d = 2
+        H = inp.arr("H", (d, d), cplx=True)
+        if inp.mode == "real":
+            H = H + H.conj().T
+        Ls = [inp.arr("L%d" % i, (d, d), cplx=True) for i in range(2)]
+        gs = [inp.real("g%d" % i, lo=Fr(1, 4), hi=3) for i in range(2)]
+        mk = lambda: oqupy.System(H.copy(), gammas=list(gs), lindblad_operators=[l.copy() for l in Ls])
+        system = mk()
+        import warnings
+        with warnings.catch_warnings():
+            warnings.simplefilter("ignore")
+            for _ in range(2):
+                tempo._estimate_dt_from_system(system, 0.0, 1.0, 1e-3, 100)
+            if inp.mode == "real":
+                bath = oqupy.Bath(np.array([[0.5, 0.0], [0.0, -0.5]]),
+                                  bc.PowerLawSD(alpha=0.1, zeta=1.0, cutoff=2.0, cutoff_type="exponential", temperature=0.0))
+                tempo.guess_tempo_parameters(bath, 0.0, 1.0, system=system, tolerance=1e-2)
+        obs = _same_list("lindblad_operators after the analysis", system.lindblad_operators, Ls, "system_untouched")
+        obs += _same_list("gammas after the analysis", system.gammas, gs, "system_untouched")
+        obs.append(Ob.eq("hamiltonian after the analysis", system.hamiltonian, H, key="system_untouched"))
+        obs.append(Ob.eq("liouvillian (first evaluated after the analysis) == fresh equal System", system.liouvillian(), mk().liouvillian(),
+                         key="system_untouched"))
+        return obs
+
+
+class H4par(Case):
+    """ParameterizedSystem.get_propagators(dt, parameters) depends on the VALUES in the parameter table at the
+    time of the call: the same ndarray object updated in place to new symbolic values (as an optimiser does
+    between two gradient evaluations) -> propagators of a fresh system on the new values; also dt changed."""
+    functions = ("system.ParameterizedSystem.get_propagators", "system.ParameterizedSystem.liouvillian")
+    stubs = ("scipy.linalg.expm in oqupy.system -> placeholder applied alike to both objects (congruence only)",)
+    id = "H4/parameterized_propagators_inplace_table"
+    bounds = {"d": 2, "steps": 2, "parameters per half step": 1}
+
+    def __init__(self):
+        self.env = _sys_env()
+
+    def run(self, inp):
+        d, N = 2, 2
+        Hs = [inp.arr("H%d" % i, (d, d), cplx=True) for i in range(2)]
+        L = inp.arr("L", (d, d), cplx=True)
+        g = inp.real("g", lo=0, hi=2)
+        mk = lambda: oqupy.ParameterizedSystem(lambda x: Hs[0] + Hs[1] * x, gammas=[lambda x: g * x], lindblad_operators=[lambda x: L * x])
+        old = np.array([[inp.real("x%d" % i, lo=Fr(1, 4), hi=1)] for i in range(2 * N)], dtype=object if inp.mode != "real" else float)
+        new = np.array([[inp.real("y%d" % i, lo=Fr(5, 4), hi=2)] for i in range(2 * N)], dtype=object if inp.mode != "real" else float)
+        table = old.copy()
+        system = mk()
+        dt = 0.125
+        first = [system.get_propagators(dt, table)(k) for k in range(N)]
+        ref_old = [mk().get_propagators(dt, old.copy())(k) for k in range(N)]
+        table[...] = new                                   # same ndarray object, new values
+        second = [system.get_propagators(dt, table)(k) for k in range(N)]
+        ref_new = [mk().get_propagators(dt, new.copy())(k) for k in range(N)]
+        third = [system.get_propagators(2 * dt, table)(k) for k in range(N)]
+        ref_dt = [mk().get_propagators(2 * dt, new.copy())(k) for k in range(N)]
+        obs = []
+        for k in range(N):
+            for h in range(2):
+                nm = "step %d %s half" % (k, ("first", "second")[h])
+                obs += [Ob.eq(nm + ": first call == fresh system on the old values", first[k][h], ref_old[k][h], key="table_values"),
+                        Ob.eq(nm + ": after the in-place update == fresh system on the new values", second[k][h], ref_new[k][h], key="table_values"),
+                        Ob.eq(nm + ": other dt == fresh system", third[k][h], ref_dt[k][h], key="table_values")]
+        obs.append(Ob.eq("parameter table untouched by the calls", table, new, key="table_untouched"))
+        return obs
+
+
 class H4tebd(Case):
     """the same ChainControl (two controls stacked on one site/step/side) and process tensors used in two
     PtTebd computations == the computation with fresh copies (real PtTebd on a two-site chain without
@@ -1192,6 +1275,7 @@ def cases(tier):
     for cls in ("system", "tdsystem", "tdsystem_field", "parameterized", "meanfield"):
         cs += [H3ctor(cls, m) for m in ("assign", "append", "pop")]
     cs.append(H3ctor("chain", "assign"))
+    cs += [H3guess(), H4par()]
     if th:
         cs += [H4ctl("control", 3), H4ctl("chain_control", 3), H4tebd(2)]
     # H4
